@@ -105,6 +105,14 @@ def reruns(chk: Check) -> None:
     beh += extra
     if not thorough:
         beh = [b for b in beh if b["sc"]["cwd"] == "elsewhere" or b["sc"]["pp"]]
+    # "re-running on unchanged input is a no-op" for EVERY document of the catalogue (not only the one the tree variants use): what the
+    # first run leaves behind must be what the comparison run produces, whatever the document makes the emitters do
+    base = [b for b in beh if b["sc"] == {"existing": "equal", "force": False, "core": "embedded", "cwd": "elsewhere", "pp": False, "fault": "none"} and not b.get("variant")][:1]
+    chk.require(len(base) == 1, "no plain `equal, no force` behaviour to instantiate with the catalogue")
+    feats = sorted(features.FEATURES)
+    for i, f in enumerate(feats):
+        if thorough or i % 2 == chk.seed % 2 or f in ("undeclared_var_required_body", "required_with_default", "undeclared_path_var", "case_variant_schemas"):
+            beh.append(dict(base[0], spec=features.build([f]), docname=f))
     traces = c10.run_real(chk, beh, "rr")
     c10.judge(chk, traces, "reruns", ("C09.",))
 
